@@ -33,4 +33,6 @@ VARIANTS = [
     V("trailing-test-on-empty-range(F27)", "src/soundevent/arrays/dimensions.py", "    if coords.size > 0 and coords[-1] >= stop - step / 2:", "    if coords[-1] >= stop - step / 2:", "R16.5"),
     V("N-trailing-test-len-guard", "src/soundevent/arrays/dimensions.py", "    if coords.size > 0 and coords[-1] >= stop - step / 2:", "    if len(coords) and coords[-1] >= stop - step / 2:", None),
     V("N-trailing-test-nested-guard", "src/soundevent/arrays/dimensions.py", "    if coords.size > 0 and coords[-1] >= stop - step / 2:\n        coords = coords[:-1]\n", "    if coords.shape[0] > 0:\n        if coords[-1] >= stop - step / 2:\n            coords = coords[:-1]\n", None),
+    V("trailing-test-guard-vacuous", "src/soundevent/arrays/dimensions.py", "    if coords.size > 0 and coords[-1] >= stop - step / 2:", "    if coords.size >= 0 and coords[-1] >= stop - step / 2:", "R16.5"),
+    V("N-trailing-test-guard-ne", "src/soundevent/arrays/dimensions.py", "    if coords.size > 0 and coords[-1] >= stop - step / 2:", "    if coords.size != 0 and coords[-1] >= stop - step / 2:", None),
 ]
